@@ -178,7 +178,7 @@ def plan(tier, seed):
                                            'assignment': None, 'real_pool': True, 'seed': seed + rep}]})
     # E4: row count under contention
     ilv_specs = [({'K': 2}, 3), ({'K': 2, 'fail': [1]}, 3)] if tier == 'quick' else \
-        [({'K': 2}, 4), ({'K': 2, 'fail': [1]}, 4), ({'K': 3}, 2), ({'K': 3, 'fail': [0]}, 2)]
+        [({'K': 2}, 6), ({'K': 2, 'fail': [1]}, 6), ({'K': 3}, 2), ({'K': 3, 'fail': [0]}, 2)]
     for spec, bound in ilv_specs:
         tagr = runner.fork_exec(lambda _: MC.ilv_roots(spec, bound), None, timeout=600)
         if tagr[0] != 'ok':
@@ -195,7 +195,7 @@ def run(tier, seed, budget=None):
         rule=('E3: real Monte-Carlo main() under a fork-faithful controlled pool for every settings file in {normal, uniform, triangular, '
               'lognormal, binomial(+uniform), a 1e-8-wide uniform, mix of five, three with "#" for the mean/mode} x K iterations x ALL assignments of iterations to <=W workers (set partitions; '
               'quick K in {3,4}, W=3; thorough K in {4,5,6}, W=4); E4: all interleavings of the real pylocker row-append protocol for 2 '
-              'workers up to 3 preemptions (thorough: 4, and 3 workers up to 2), with and without a failing iteration; plus free-running real '
+              'workers up to 3 preemptions (thorough: 6, and 3 workers up to 2), with and without a failing iteration; plus free-running real '
               'ProcessPoolExecutor runs. Non-trivial = assignment that uses several workers / interleaving with >=1 preemption; states = '
               'distinct (settings, K, assignment) and (spec, sub-tree, outcome)'),
         assumptions=['independence is decided through its checkable consequences (distinctness, support, non-replication across every assignment, '
